@@ -6,7 +6,7 @@ import forward_common as fw
 def run(ctx):
     q = ctx.quick()
     fw.l1(ctx)
-    fw.graph(ctx, q)
+    fw.graph(ctx, q, focus_depth=8)
     fw.traces(ctx, "c02", 3000 if q else 120000)
     c.order_leg(ctx, "Gen_FireOrder_fw.cfg", "firing order of one execute over a large rule base")
     ctx.cov["rule"] = ("seeded random programs recorded from the real RustRuleEngine and interpreted by TLC: programs of 2-8 rules with random salience (ties, negatives), enable flags, no-loop, lock-on-active, three agenda groups, two activation groups, date windows, ActivateAgendaGroup actions, and a history of up to 6 calls (execute at different timestamps, set/pop/clear focus, reset no-loop tracking, enable/disable); the firing sequence, active group, facts and counters of every execute call must equal the interpreter's; "
